@@ -49,6 +49,12 @@ CHECKS = {
    note="Trusted: the harness' rendering of a returned value uses the library's readable* helpers (the CLI's own type dispatch is what is checked); -i is fed programs without return statements or runtime errors; write errors on the output (full disk) are not injected because the property does not define them; readline is stubbed out.",
    technique="deterministic simulation: the CLI main() run in-process under simulated stdin/select/clock seams with injected short reads, timeouts and EINTR; differential oracle against the library",
    design="DESIGN.md section 4 (C19)"),
+ "C07": dict(
+   level="fault_enumeration",
+   text="Runtime errors are the injected fault: fault points are ordinary BLOC expressions (methods of the verification module vf that throw the RuntimeError the plan prescribes - the documented module error path) placed by the generator in loop headers, while conditions, if conditions, call arguments, handler bodies and return expressions of nested begin/exception, for, forall, while, if and function structures (depth <= 3), next to natural errors (1/0, raise, t.at(99), step 0). The runs of a group share one program skeleton and enumerate which fault point fires with which error kind on which visit, then random pairs, then bloc_break before statement #k; a probe unit (further generated statements, iterator names taking another type, iterated tables changing length) runs afterwards in the same context. Oracle: an executable reference interpreter of the generated subset predicts handler selection, everything printed, the error number / user name reported to the host for every unit and the final variable store; residue invariants (loop-control depth, exec-level depth, constraint flags, pending break/continue) must hold after every unit; progress is bounded by a statement-step budget relative to the model. A quarter of the plans are also driven through the interactive loop of the real bloc command (apps/cli_parser.cpp has its own statement driver).",
+   note="Trusted: the reference interpreter (sim/ref/interp.cpp, ~350 lines written from the manual; it agrees with the implementation on every fault-free run of every batch, otherwise the run is a violation); at most one effectful sub-expression per expression so evaluation order is unobservable; errors are compared by class not message; cancel runs are checked for invariants only.",
+   technique="deterministic simulation: fault-point enumeration (runtime errors injected at expression positions via a plugin, cancel at statement #k), reference-interpreter oracle + residue invariants + step-bounded liveness, CLI driver route",
+   design="DESIGN.md section 4 (C07)"),
 }
 
 NOT_APPLICABLE = {
